@@ -28,6 +28,10 @@ let deep_doc (shape : str) (d : int) =
    | "long_number" -> Buffer.add_string b "[-1"; rep d "0"; Buffer.add_string b "."; rep d "5"; Buffer.add_string b "e-1"; rep d "7"; Buffer.add_string b "]"
    | "long_number_bad" -> Buffer.add_string b "1"; rep d "0"; Buffer.add_string b "."
    | "wide_arr" -> Buffer.add_string b "[0"; rep d ",0"; Buffer.add_string b "]"
+   | "hi_run" -> Buffer.add_string b "\""; rep d "\\ud800"; Buffer.add_string b "\""
+   | "lo_run" -> Buffer.add_string b "[\""; rep d "\\udc00"; Buffer.add_string b "\"]"
+   | "pair_run" -> Buffer.add_string b "\""; rep d "\\ud83d\\ude00"; Buffer.add_string b "\""
+   | "hi_run_key" -> Buffer.add_string b "{\""; rep d "\\udbff"; Buffer.add_string b "x\":0}"
    | "wide_obj" -> Buffer.add_string b "{\"a\":0"; rep d ",\"a\":0"; Buffer.add_string b "}"
    | _ -> Buffer.add_string b "null");
   s2l_ascii (Buffer.contents b)
